@@ -40,9 +40,9 @@ type Prov struct {
 
 func (p Prov) values() []uint64 {
 	vs := append([]uint64{}, p.Init...)
-	if len(p.Run) == 3 {
-		for i := uint64(0); i < p.Run[1]; i++ {
-			vs = append(vs, p.Run[0]+i*p.Run[2])
+	for k := 0; k+2 < len(p.Run); k += 3 { // one or more runs {start, count, stride}
+		for i := uint64(0); i < p.Run[k+1]; i++ {
+			vs = append(vs, p.Run[k]+i*p.Run[k+2])
 		}
 	}
 	return vs
@@ -226,6 +226,21 @@ func gen(r *rand.Rand) WL {
 					// a very large sparse set (more than 1 MiB of roaring storage)
 					w.Provs[i].Run = []uint64{starts[r.IntN(len(starts))], 600000, 16}
 				}
+				if w.Width == 64 && r.IntN(4) == 0 {
+					// several 2^32 key spaces (roaring64 keeps one 32-bit bitmap per key space), the first ones
+					// populous: operations that empty a whole key space while later ones still hold values
+					var runs []uint64
+					ks := uint64(r.IntN(3))
+					for j := 0; j < 3+r.IntN(3); j++ {
+						cnt := uint64([]int{1, 7, 4096, 4097, 5000}[r.IntN(5)])
+						if j == 0 && r.IntN(2) == 0 {
+							cnt = uint64(4096 + r.IntN(2000))
+						}
+						runs = append(runs, ks<<32+uint64(r.IntN(3)), cnt, uint64(1+r.IntN(2)))
+						ks += 1 + uint64(r.IntN(2))
+					}
+					w.Provs[i].Run = runs
+				}
 			}
 		}
 	}
@@ -276,6 +291,9 @@ func gen(r *rand.Rand) WL {
 				o.K = reads[r.IntN(len(reads))]
 				o.P = readable[r.IntN(len(readable))]
 				o.V = []uint64{u[r.IntN(len(u))], u[r.IntN(len(u))]}
+				if nc == 1 && r.IntN(6) == 0 {
+					o.K = "comm"
+				}
 			}
 			ops = append(ops, o)
 		}
@@ -608,6 +626,48 @@ func run[T uint32 | uint64](t *testing.T, w WL, cfg simrt.Config) simh.Outcome {
 							i.Operand = mkset(initOf[op.Q]).sorted() // frozen
 						}
 					}
+					if op.K == "comm" {
+						// the lazy union / intersection helpers (cardinality.CommutativeOr, DuplexCommutation.Or,
+						// CommutativeDuplexes): two unions built from ONE base, queried after both exist, must answer
+						// as the combination of their own providers' answers. Single caller only (nothing changes
+						// between the direct and the combined question).
+						if len(w.Clients) != 1 || len(provs) < 2 {
+							continue
+						}
+						np := len(provs)
+						ia, ib, ic, id := op.P%np, (op.P+1)%np, (op.P+2)%np, (op.P+3)%np
+						a, b, c, d := provs[ia], provs[ib], provs[ic], provs[id]
+						base := cardinality.CommutativeOr[T](a, b)
+						s1 := base.Or(c)
+						s2 := base.Or(d)
+						var cd cardinality.CommutativeDuplexes[T]
+						cd.Or(s1)
+						cd.And(s2)
+						probe := append([]uint64{}, op.V...)
+						for _, pi := range []int{ic, id, ia} {
+							for k, v := range initOf[pi] {
+								if k < 3 {
+									probe = append(probe, v)
+								}
+							}
+						}
+						for _, v := range probe {
+							tv := T(v)
+							w1 := a.Contains(tv) || b.Contains(tv) || c.Contains(tv)
+							w2 := a.Contains(tv) || b.Contains(tv) || d.Contains(tv)
+							if got := s1.Contains(tv); got != w1 && cloneBad == "" {
+								cloneBad = fmt.Sprintf("CommutativeOr(p%d,p%d).Or(p%d).Contains(%d) = %v, but the three providers answer %v (a sibling union .Or(p%d) was built from the same base afterwards)", ia, ib, ic, v, got, w1, id)
+							}
+							if got := s2.Contains(tv); got != w2 && cloneBad == "" {
+								cloneBad = fmt.Sprintf("CommutativeOr(p%d,p%d).Or(p%d).Contains(%d) = %v, but the three providers answer %v", ia, ib, id, v, got, w2)
+							}
+							if got := cd.Contains(tv); got != (w1 && w2) && cloneBad == "" {
+								cloneBad = fmt.Sprintf("CommutativeDuplexes{or: s1, and: s2}.Contains(%d) = %v, want %v", v, got, w1 && w2)
+							}
+						}
+						counters["commutative_helper_checks"]++
+						continue
+					}
 					if op.K == "snapwalk" {
 						// iterate a snapshot while editing the original: snap := p.Clone(); snap.Each(func(v){ p.Remove/Contains(v) }).
 						// Recorded as a clone read followed by the individual operations on p.
@@ -693,6 +753,9 @@ func run[T uint32 | uint64](t *testing.T, w WL, cfg simrt.Config) simh.Outcome {
 		return o
 	case cloneBad != "":
 		o.Class, o.Detail = "oracle:clone", cloneBad
+		if strings.HasPrefix(cloneBad, "Commutative") {
+			o.Class = "oracle:commutative_helpers"
+		}
 		return o
 	}
 	if w.Mode == "w2" {
@@ -706,7 +769,7 @@ func run[T uint32 | uint64](t *testing.T, w WL, cfg simrt.Config) simh.Outcome {
 		}
 		counters["sequential_histories"]++
 		for _, p := range w.Provs {
-			if len(p.Run) == 3 && p.Run[1] > 4096 {
+			if len(p.Run) >= 3 && p.Run[1] > 4096 {
 				counters["large_set_runs"]++
 				break
 			}
@@ -777,7 +840,7 @@ func bigConc(w WL) bool {
 		return false
 	}
 	for _, p := range w.Provs {
-		if len(p.Run) == 3 {
+		if len(p.Run) >= 3 {
 			return true
 		}
 	}
@@ -842,7 +905,7 @@ func TestSim(t *testing.T) {
 				cfg.SiteSample = 1e-9 // interleaving at the wrappers' locks only: the sets are too large for more
 			}
 			for _, p := range w.Provs {
-				if len(p.Run) == 3 {
+				if len(p.Run) >= 3 {
 					// element-wise fallbacks through a wrapper take one scheduling step per element
 					cfg.MaxSteps, cfg.FairSteps = 5000000, 5000000
 				}
